@@ -34,6 +34,16 @@ def nontrivial_pair(state):
     return len(state[0]) >= 2 and len(state[1]) >= 2 and state[0] != state[1]
 
 
+def in_domain(acc, func, state, cfg):
+    """Optional adapter hook ``func.defined(state, cfg)``: False for inputs on which the documentation itself
+    prescribes an error (e.g. PCS with duration=None and <2 distinct timestamps): excluded and counted."""
+    d = getattr(func, "defined", None)
+    if d is not None and not d(state, cfg):
+        acc.counters["outside_documented_domain:%s" % func.name] += 1
+        return False
+    return True
+
+
 # ------------------------------------------------------------------------------------ C04
 def check_defn(acc, task, func, state, cfg):
     try:
@@ -101,6 +111,8 @@ def range_ok(kind, v, cond_holds=True, nan_ok=False):
 
 
 def check_range(acc, task, func, state, cfg):
+    if not in_domain(acc, func, state, cfg):
+        return
     acc.transitions += 1
     case = None
     try:
@@ -154,6 +166,8 @@ def check_perfect(acc, task, func, x, cfg):
         acc.counters["degenerate_skipped:%s" % func.name] += 1
         return
     state = (x, x)
+    if not in_domain(acc, func, state, cfg):
+        return
     acc.transitions += 1
     try:
         got = func.call(state, cfg)
@@ -204,3 +218,182 @@ def replay(case, acc, what):
         check_perfect(acc, task, func, base.tup(case["x"]), cfg)
     else:
         raise core.HarnessError("unknown case kind %r" % case["kind"])
+
+
+# ------------------------------------------------------------------------------------ C06 (swap)
+def _swap_map(func, cfg):
+    m = func.swap
+    if callable(m):
+        m = m(cfg)
+    return m
+
+
+def check_swap(acc, task, func, state, cfg):
+    m = _swap_map(func, cfg)
+    if not m:
+        return
+    ok = getattr(func, "swap_ok", None)
+    if ok is not None and not ok(state):
+        acc.counters["not_admissible_in_both_roles"] += 1
+        return
+    if not (in_domain(acc, func, state, cfg) and in_domain(acc, func, (state[1], state[0]), cfg)):
+        return
+    acc.transitions += 2
+    try:
+        g1 = func.call(state, cfg)
+        g2 = func.call((state[1], state[0]), cfg)
+    except Exception as ex:  # noqa
+        acc.violation("swap", func.name, case_of(task, func, state, cfg),
+                      observed="raised %s: %s" % (type(ex).__name__, ex))
+        return
+    acc.outcome(tuple(round(g1[k], 9) if g1[k] == g1[k] else "nan" for k in func.keys))
+    if any(g1[k] != g1[m[k]] for k in m if g1[k] == g1[k] and g1[m[k]] == g1[m[k]]):
+        acc.counters["swap.asymmetric_result_states"] += 1
+    for k, k2 in m.items():
+        a, b = g1[k], g2[k2]
+        if a != a and b != b:
+            continue
+        if not (abs(a - b) <= 1e-12 * max(1.0, abs(a), abs(b))):
+            acc.violation("swap", func.name, case_of(task, func, state, cfg),
+                          observed={"%s(a,b)" % k: a, "%s(b,a)" % k2: b})
+            return
+
+
+def shard_swap(arg):
+    taskname, which, tier, phase, lo, hi = arg
+    task = base.load(taskname)
+    acc = core.Acc("C06")
+    sp = space(taskname, which, tier, phase)
+    for state in sp[lo::hi]:
+        if repr(state[0]) > repr(state[1]):
+            continue                      # unordered pairs once
+        acc.states += 1
+        if len(state[0]) != len(state[1]):
+            acc.counters["sides_differ_in_size"] += 1
+            acc.nontrivial += 1
+        for func in task.funcs:
+            if not func.swap:
+                continue
+            for cfg in func.configs(tier):
+                acc.tick(lambda: case_of(task, func, state, cfg))
+                check_swap(acc, task, func, state, cfg)
+    if lo == 0 and sp:
+        acc.sample(case_of(task, task.funcs[0], sp[len(sp) // 2], {}))
+    return acc
+
+
+# ------------------------------------------------------------------------------------ C07 (monotone / nested)
+def check_chain(acc, task, func, state, param, values, base_cfg=None):
+    prev = None
+    prev_v = None
+    for v in values:
+        cfg = dict(base_cfg or {})
+        cfg[param] = v
+        if not in_domain(acc, func, state, cfg):
+            return
+        acc.transitions += 1
+        try:
+            got = func.call(state, cfg)
+        except Exception as ex:  # noqa
+            acc.violation("monotone", func.name, dict(case_of(task, func, state, cfg), chain=[param, list(values)]),
+                          observed="raised %s: %s" % (type(ex).__name__, ex))
+            return
+        if prev is not None:
+            for k in func.mono_keys:
+                if got[k] < prev[k] - 1e-12:
+                    acc.violation("monotone", func.name,
+                                  dict(case_of(task, func, state, cfg), chain=[param, [prev_v, v]]),
+                                  observed={k: [prev[k], got[k]]}, expected="non-decreasing in %s" % param)
+                    return
+            if any(got[k] > prev[k] + 1e-12 for k in func.mono_keys):
+                acc.counters["mono.strict_increase_edges"] += 1
+        prev, prev_v = got, v
+        acc.outcome((func.name, param, tuple(round(got[k], 9) for k in func.mono_keys)))
+
+
+def check_nested(acc, task, func, state, cfg):
+    if not func.nested or not in_domain(acc, func, state, cfg):
+        return
+    acc.transitions += 1
+    try:
+        got = func.call(state, cfg)
+    except Exception as ex:  # noqa
+        acc.violation("nested", func.name, case_of(task, func, state, cfg),
+                      observed="raised %s: %s" % (type(ex).__name__, ex))
+        return
+    for lo_k, hi_k in func.nested:
+        a, b = got[lo_k], got[hi_k]
+        if a != a or b != b:
+            continue
+        if a < b - 1e-12:
+            acc.counters["nested.strict_states"] += 1
+        if a > b + 1e-12:
+            acc.violation("nested", func.name, case_of(task, func, state, cfg), observed={lo_k: a, hi_k: b},
+                          expected="%s <= %s" % (lo_k, hi_k))
+            return
+
+
+def check_cross(acc, task, state, lo, hi):
+    (fl, kl, cl), (fh, kh, ch) = lo, hi
+    f_lo, f_hi = task.func(fl), task.func(fh)
+    if not (in_domain(acc, f_lo, state, cl) and in_domain(acc, f_hi, state, ch)):
+        return
+    acc.transitions += 2
+    case = dict(case_of(task, f_lo, state, cl), cross=[[fl, kl, cl], [fh, kh, ch]])
+    try:
+        a = f_lo.call(state, cl)[kl]
+        b = f_hi.call(state, ch)[kh]
+    except Exception as ex:  # noqa
+        acc.violation("nested", fl, case, observed="raised %s: %s" % (type(ex).__name__, ex))
+        return
+    if a != a or b != b:
+        return
+    if a < b - 1e-12:
+        acc.counters["nested.strict_states"] += 1
+    if a > b + 1e-12:
+        acc.violation("nested", fl, case, observed={"%s:%s" % (fl, kl): a, "%s:%s" % (fh, kh): b},
+                      expected="lower <= higher")
+
+
+def shard_mono(arg):
+    taskname, which, tier, phase, lo, hi = arg
+    task = base.load(taskname)
+    acc = core.Acc("C07")
+    sp = space(taskname, which, tier, phase)
+    cross = getattr(task, "cross_nested", None) or []
+    for state in sp[lo::hi]:
+        acc.states += 1
+        if nontrivial_pair(state):
+            acc.nontrivial += 1
+        for func in task.funcs:
+            for param, values in func.mono:
+                acc.tick(lambda: dict(case_of(task, func, state, {}), chain=[param, list(values)]))
+                check_chain(acc, task, func, state, param, values)
+            if func.nested:
+                for cfg in func.configs(tier):
+                    acc.tick(lambda: case_of(task, func, state, cfg))
+                    check_nested(acc, task, func, state, cfg)
+        for lo_, hi_ in cross:
+            acc.tick(lambda: dict(case_of(task, task.func(lo_[0]), state, lo_[2]), cross=[list(lo_), list(hi_)]))
+            check_cross(acc, task, state, lo_, hi_)
+    if lo == 0 and sp:
+        acc.sample(case_of(task, task.funcs[0], sp[len(sp) // 2], {}))
+    return acc
+
+
+def replay_rel(case, acc, what):
+    task = base.load(case["task"])
+    func = task.func(case["func"])
+    state = (base.tup(case["ref"]), base.tup(case["est"]))
+    cfg = case.get("cfg", {})
+    if what == "swap":
+        check_swap(acc, task, func, state, cfg)
+    elif "chain" in case:
+        param, values = case["chain"]
+        base_cfg = {k: v for k, v in cfg.items() if k != param}
+        check_chain(acc, task, func, state, param, values, base_cfg)
+    elif "cross" in case:
+        lo_, hi_ = case["cross"]
+        check_cross(acc, task, state, tuple(lo_), tuple(hi_))
+    else:
+        check_nested(acc, task, func, state, cfg)
